@@ -120,7 +120,8 @@ func admit(c client.Client, op string, old, new runtime.Object) (resp admission.
 
 // Admit filters one Rollout (v1alpha1 or v1beta1, decided by the type of new) through the real validating
 // handler. op is "CREATE" or "UPDATE" (old must have the type of new). c is the client the handler reads
-// (other Rollouts of the namespace, and for UPDATE the stored object whose status.phase decides immutability).
+// (other Rollouts of the namespace, and for UPDATE the stored object whose status.phase decides immutability);
+// it has to serve the API version of the request (see AlphaView).
 // allowed is false when the handler panicked (panicInfo != nil) or the request could not be built.
 func Admit(c client.Client, op string, old, new runtime.Object) (allowed bool, panicInfo *core.PanicInfo) {
 	resp, pi, err := admit(c, op, old, new)
@@ -128,6 +129,26 @@ func Admit(c client.Client, op string, old, new runtime.Object) (allowed bool, p
 		return false, pi
 	}
 	return resp.Allowed, nil
+}
+
+// ToStored converts an admitted request object (either version) into the stored v1beta1 form (real conversion).
+func ToStored(obj runtime.Object) (*v1beta1.Rollout, error) {
+	b, pi, err := toStored(obj)
+	if pi != nil {
+		return nil, fmt.Errorf("conversion panicked: %s", pi.Value)
+	}
+	return b, err
+}
+
+// AlphaView is the v1alpha1 representation the API server serves for a stored Rollout (real conversion). A
+// fake client does not convert between versions: a client handed to Admit for v1alpha1 requests has to hold
+// these representations next to the stored v1beta1 objects.
+func AlphaView(b *v1beta1.Rollout) (*v1alpha1.Rollout, error) {
+	a, pi, err := alphaView(b)
+	if pi != nil {
+		return nil, fmt.Errorf("conversion panicked: %s", pi.Value)
+	}
+	return a, err
 }
 
 // NewClient returns a controller-runtime fake client over Scheme holding objs.
